@@ -211,6 +211,11 @@ class SchemaValidationContext:
         if not default_input:
             return
 
+        # A default value can only be validated against an input type
+        # (any other declared type has already been reported).
+        if not is_input_type(input_value.type):
+            return
+
         errors: list[tuple[GraphQLError, list[str | int]]] = []
         validate_default_input(
             default_input,
